@@ -160,7 +160,7 @@ theorem reset_sinv {src : Nat → UInt8} {s : RStream} (h : SInv src s) (finalSi
   unfold RStream.handleResetStreamFrame at hok ⊢
   by_cases hsd : s.shutdown = true
   · rw [if_pos hsd]
-    exact ⟨SInv.complete (o := ⟨s, none, []⟩) h false, (complete_fields _ _).2.2.2.2.1⟩
+    exact ⟨SInv.complete (o := ⟨s, none, []⟩) h true, (complete_fields _ _).2.2.2.2.1⟩
   · rw [if_neg hsd] at hok ⊢
     simp only at hok ⊢
     rw [(complete_fields _ _).1] at hok
